@@ -47,7 +47,10 @@ def fn_roles(fn, short=None):
     lead = n - len(roles)
     if lead < 0:
         return {}
-    return {lead + i: r for i, r in enumerate(roles)}
+    out = {lead + i: r for i, r in enumerate(roles)}
+    if lead == 1:
+        out[0] = 'state'        # traits functions: the allocator object comes first (named by position, not by its identifier)
+    return out
 
 
 class FwdCall:
